@@ -4,6 +4,7 @@ package rules
 // the defect, reports it on the tree before the repair and holds after it.
 
 import (
+	"go/types"
 	"sort"
 	"strings"
 
@@ -1032,4 +1033,118 @@ func (c *Ctx) lateShapeRules(rule, which string) {
 		c.rejects(rule, fn, "at-most-two-results", "a method with more than two results is accepted and the extra results dropped", c.atMost(isLenRes, 2))
 		c.rejects(rule, fn, "second-result-is-error", "a method whose second result is not an error is accepted and that result dropped", c.notExactly(isLenRes, 2), c.M(true, secondErr))
 	}
+}
+
+// docStopsAtFieldRule: a method's doc comment is its own.
+func (c *Ctx) docStopsAtFieldRule(rule string) {
+	r := c.R
+	r.Rule(rule, "util.GetDocCommentOn walks outwards from the object's identifier; the walk does not continue past an *ast.Field (the loop's back edge is taken only for nodes that are no *ast.Field): a method or struct field without a doc comment has none – the comment above the declaration around it is about that declaration (a method taken from an embedded interface would otherwise consume that interface's doc comment: its notation-like lines applied to whichever method comes first and deleted from the output)")
+	fn := c.MustFunc(rule, "/pkg/util", "GetDocCommentOn")
+	if fn == nil {
+		return
+	}
+	rc := c.Reach(fn)
+	notField := c.M(false, assertOK("*ast.Field"))
+	n := 0
+	ok := true
+	why := ""
+	for head, body := range allLoops(fn) {
+		for _, p := range head.Preds {
+			if !body[p] {
+				continue
+			}
+			n++
+			be := rc.BackEdgeCond(p, head)
+			// (a node that is positively another kind of node is no field either)
+			other := c.M(true, func(t *core.Term) bool {
+				return t.Kind == "extract" && t.Name == "1" && t.Args[0].Kind == "typeassert,ok" && strings.HasPrefix(t.Args[0].Name, "*ast.") && t.Args[0].Name != "*ast.Field"
+			})
+			if !be.Implies(notField, other) {
+				ok = false
+				why = c.failing(be, notField, other)
+			}
+		}
+	}
+	// a helper that answers the Doc address (or nil) for the node kinds moves the decision: then the caller must stop on a
+	// field whose Doc is nil – not decided here
+	if n == 0 {
+		r.Undecided(rule, FnKey(fn)+":walk", "no loop over the enclosing nodes found")
+		return
+	}
+	r.Check(rule, FnKey(fn)+":stops-at-field", c.Pos(fn.Pos()), ok, "the walk goes on past an *ast.Field without a doc comment and answers the doc comment of the enclosing declaration; back-edge path: "+why)
+}
+
+// iterationErrorRule (C14): an error captured by an iteration callback is not overwritten by the next invocation.
+func (c *Ctx) iterationErrorRule(rule string) {
+	r := c.R
+	r.Rule(rule, "iteration callbacks and captured errors: a closure handed to IterateStructFields / IterateStructMethods that stores the error result of a call into a captured variable lets the iteration go on (answers false) only where that variable is known to be nil, or answers a value that is true whenever it is not (`… || err != nil`): the next invocation would overwrite the error, the caller would return nil, and the run end with exit 0 and the field missing from the output")
+	n := 0
+	for _, s := range append(c.CallsTo(fnIterFields), c.CallsTo(fnIterMethods)...) {
+		if p := pkgOf(s.Fn); p == nil || p.Path() != mod+"/pkg/builder" {
+			continue
+		}
+		mc, ok := s.Args()[1].(*ssa.MakeClosure)
+		if !ok {
+			continue
+		}
+		h := mc.Fn.(*ssa.Function)
+		for _, fv := range h.FreeVars {
+			pt, isPtr := fv.Type().Underlying().(*types.Pointer)
+			if !isPtr || pt.Elem().String() != "error" || fv.Referrers() == nil {
+				continue
+			}
+			var stores []*ssa.Store
+			for _, rf := range *fv.Referrers() {
+				if st, isSt := rf.(*ssa.Store); isSt && st.Addr == ssa.Value(fv) {
+					if k, isK := st.Val.(*ssa.Const); isK && k.IsNil() {
+						continue
+					}
+					stores = append(stores, st)
+				}
+			}
+			if len(stores) == 0 {
+				continue
+			}
+			n++
+			rc := c.Reach(h)
+			isErrCell := func(t *core.Term) bool { return t.Kind == "fv" && t.Name == fv.Name() }
+			errNil := c.M(true, isNilCmp(isErrCell))
+			okAll := true
+			why := ""
+			for _, st := range stores {
+				for _, ret := range core.Returns(h) {
+					if len(ret.Results) != 1 || !rc.CanReach(st.Block(), ret.Block()) {
+						continue
+					}
+					t := c.O.Of(ret.Results[0])
+					switch {
+					case t.Is("const", "true"):
+					case t.Contains(func(x *core.Term) bool {
+						return x.Kind == "binop" && x.Name == "!=" && (isErrCell(x.Args[0]) && x.Args[1].Is("const", "nil") || isErrCell(x.Args[1]) && x.Args[0].Is("const", "nil"))
+					}):
+						// `a != nil || err != nil || …`: true whenever the error is set
+					default:
+						// every way the answer can be false knows the error to be nil (`a != nil || err != nil || nested` is a φ whose
+						// last edge is taken under a == nil ∧ err == nil)
+						d := c.ReachOf(ret)
+						for _, cs := range rc.Cases(ret.Results[0]) {
+							if c.O.Of(cs.V).Is("const", "true") {
+								continue
+							}
+							cond := d
+							if cs.Cond != nil {
+								cond = core.And(cs.Cond, d)
+							}
+							if !cond.Implies(errNil) {
+								okAll = false
+								why = "return at " + c.InstrPos(ret) + " answers " + c.O.Of(cs.V).String() + " under " + c.failing(cond, errNil)
+							}
+						}
+					}
+				}
+			}
+			r.Check(rule, sprintf("%s:captured-%s-not-overwritten", FnKey(h), fv.Name()), c.Pos(h.Pos()), okAll, "the callback can let the iteration go on with the captured error set: the next field overwrites it (an error on any field but the last is lost – the diagnostic is printed, the tool exits 0 and the field disappears from the output); "+why)
+		}
+	}
+	r.Floor(rule, "iteration callbacks that capture an error", n, 1)
 }
